@@ -16,7 +16,8 @@ RULE = ('Query of length 1..5, series of length 1..10 (also shorter than the que
         'generated sequences of open-iterator / advance / best_match / matching_function / align operations on ONE object; '
         'every yielded match must equal what a fresh alignment object yields at the same position and the object\'s '
         'matching function and matrix must stay bitwise unchanged. Non-trivial: len(series) > len(query) >= 2 and the best '
-        'start is > 0 for some end point; histories: >= 2 iterators interleaved.')
+        'start is > 0 for some end point; histories: >= 2 iterators interleaved.'
+        ' Further routes: get_match and matching_function_segment/_endpoint/_startpoint/_bestpath for every end point (segment and path realise the value there), the *_fast spellings, best_matches(max_rangefactor in {1,1.5,2,3,10,1000}) and best_matches_knee(alpha): a prefix of the k=None sequence; range-factor rule: yielded values <= first*factor and the next one beyond it.')
 ASSUMPTIONS = ['finite doubles |x| <= 1e3; default inner distance (the class offers no other)']
 
 
